@@ -24,6 +24,14 @@ type GenOpts struct {
 	// ProxyAuth, when set, is the Proxy-Authorization value the proxy's own basic auth accepts: it is sent as
 	// the FIRST Proxy-Authorization line (left out on 1 in 5 of the requests that end a connection: those are refused).
 	ProxyAuth string
+	// AuthVariety > 0: with that percentage the request carries a client Authorization drawn from every scheme
+	// (Basic well-formed / undecodable / without colon, Bearer, Digest, Negotiate, NTLM, a bare token, empty; one to
+	// three lines) instead of the three values of the ordinary draw. Zero leaves the random stream as it was.
+	AuthVariety int
+	// ConnShapes > 0: with that percentage the hop-by-hop part of the request is drawn by GenConnShape (the shape of
+	// the Connection field crossed with the presence of each field of the fixed hop-by-hop list) instead of the
+	// ordinary one. Zero draws nothing extra from the random stream.
+	ConnShapes int
 }
 
 var (
@@ -36,6 +44,16 @@ var (
 	valChars     = "abcdefXYZ0123456789 ,;=:/\"'()*-_.~!@#$%^&[]{}|<>?+"
 	BodySizes    = []int{0, 1, 2, 100, 1000, 4095, 4096, 4097, 8192, 32767, 32768, 32769, 70000}
 )
+
+// ClientAuthValues: Authorization values a client sends, of every scheme and degree of well-formedness.
+var ClientAuthValues = []string{
+	"Basic Y2xpZW50OnB3", "basic Y2xpZW50OnB3", "BASIC Y2xpZW50Og==", // client:pw, lower-case scheme, empty password
+	"Basic !!!not-base64", "Basic bm9jb2xvbg==", "Basic", "Basic  Y2xpZW50OnB3", // undecodable, no colon inside, no credentials, two spaces
+	"Bearer tok", "Bearer eyJhbGciOiJIUzI1NiJ9.e30.abc-_", "bearer x",
+	"Digest username=\"u\", realm=\"r\", nonce=\"n\", uri=\"/\", response=\"0\"",
+	"Negotiate YIIBhwYJKoZIhvcSAQICAQBuggF2", "NTLM TlRMTVNTUAABAAAAB4IIAA==", "AWS4-HMAC-SHA256 Credential=A/20260101/x/s3/aws4_request",
+	"token68only", "", "",
+}
 
 func genToken(r *core.Rand, alphabet string, lo, hi int) string {
 	n := r.Range(lo, hi)
@@ -174,7 +192,17 @@ func GenRequest(r *core.Rand, o GenOpts) *Request {
 			fs = append(fs, rig.Field{Name: "User-Agent", Value: "second/1.0"})
 		}
 	}
-	if r.Chance(15) {
+	if o.AuthVariety > 0 {
+		if r.Chance(o.AuthVariety) {
+			nl := 1
+			if r.Chance(25) {
+				nl = r.Range(2, 3)
+			}
+			for i := 0; i < nl; i++ {
+				fs = append(fs, rig.Field{Name: caseVariant(r, "Authorization"), Value: core.Pick(r, ClientAuthValues)})
+			}
+		}
+	} else if r.Chance(15) {
 		fs = append(fs, rig.Field{Name: "Authorization", Value: core.Pick(r, []string{"Basic Y2xpZW50OnB3", "Bearer tok", ""})})
 	}
 	if r.Chance(12) {
@@ -186,10 +214,14 @@ func GenRequest(r *core.Rand, o GenOpts) *Request {
 	// hop-by-hop fields and Connection nominations
 	var nominated []string
 	upNom := o.UpgradeNominate > 0 && r.Chance(o.UpgradeNominate)
+	connShape := !upNom && o.ConnShapes > 0 && r.Chance(o.ConnShapes)
 	if upNom {
 		var lines []rig.Field
 		lines, nominated = GenUpgradeNominating(r, o.ID, fs)
 		fs = append(fs, lines...)
+	} else if connShape {
+		// the Connection lines are drawn there too: nothing below adds an option
+		fs = append(fs, GenConnShape(r, ConnShapeOpts{ID: o.ID, AllowClose: o.Last, NeedKeepAlive: q.Minor == 0 && !o.Last, NoFraming: true})...)
 	} else if r.Chance(35) {
 		k := r.Range(1, 3)
 		for i := 0; i < k; i++ {
@@ -210,22 +242,22 @@ func GenRequest(r *core.Rand, o GenOpts) *Request {
 			fs = append(fs, rig.Field{Name: caseVariant(r, hn), Value: v})
 		}
 	}
-	if !upNom && r.Chance(30) {
+	if !upNom && !connShape && r.Chance(30) {
 		k := r.Range(1, 3)
 		for i := 0; i < k; i++ {
 			nm := core.Pick(r, append(append([]string{}, plainNames...), "X-Case-Other", "Keep-Alive", "Cookie", "Via", "X-Forwarded-For", "User-Agent", "X-Forwarded-Host"))
 			nominated = append(nominated, caseVariant(r, nm))
 		}
 	}
-	upgrade := !upNom && r.Chance(8)
+	upgrade := !upNom && !connShape && r.Chance(8)
 	if upgrade {
 		nominated = append(nominated, core.Pick(r, []string{"Upgrade", "upgrade"}))
 		fs = append(fs, rig.Field{Name: "Upgrade", Value: core.Pick(r, []string{"websocket", "h2c", "foo/1"})})
 	}
-	if q.Minor == 0 && !o.Last {
+	if q.Minor == 0 && !o.Last && !connShape {
 		nominated = append(nominated, core.Pick(r, []string{"keep-alive", "Keep-Alive"}))
 	}
-	if o.Last && r.Chance(30) {
+	if o.Last && !connShape && r.Chance(30) {
 		nominated = append(nominated, core.Pick(r, []string{"close", "Close"}))
 	}
 	if upNom {
@@ -438,6 +470,258 @@ func ConnectionLines(r *core.Rand, tokens []string) []rig.Field {
 			v += ","
 		}
 		out = append(out, rig.Field{Name: respell(r, "Connection"), Value: v})
+	}
+	return out
+}
+
+// ---- the Connection-field dimension ----
+
+// FixedHopByHop: the fields that are hop-by-hop by definition (removeHopByHopHeaders' fixed list without Connection
+// itself): whatever the Connection field of the message says, none of them is passed on.
+var FixedHopByHop = []string{"Proxy-Authorization", "Proxy-Authenticate", "TE", "Trailer", "Transfer-Encoding", "Upgrade", "Keep-Alive", "Proxy-Connection"}
+
+// ConnShapeOpts steers GenConnShape.
+type ConnShapeOpts struct {
+	ID            string
+	AllowClose    bool // the request may end the connection: "close" options are drawn
+	NeedKeepAlive bool // an HTTP/1.0 request that must not end the connection: a keep-alive option is always there
+	NoFraming     bool // the caller owns the framing: no Transfer-Encoding / Trailer line is drawn
+}
+
+func hopFieldValue(r *core.Rand, name, id string, i int) string {
+	switch name {
+	case "Proxy-Authorization":
+		return core.Pick(r, []string{"Basic Zm9vOmJhcg==", "Bearer hop-" + id, fmt.Sprintf("Basic aG9wOnNlY3JldC0%d", i)})
+	case "Proxy-Authenticate":
+		return "Basic realm=\"client-sent-" + id + "\""
+	case "TE":
+		return core.Pick(r, []string{"trailers", "gzip", "trailers, deflate;q=0.5"})
+	case "Trailer":
+		return core.Pick(r, []string{"X-Trailer-A", "X-Checksum, x-trailer-b"})
+	case "Transfer-Encoding":
+		return core.Pick(r, []string{"chunked", "Chunked"})
+	case "Upgrade":
+		return core.Pick(r, []string{"websocket", "h2c", "foo/1"})
+	case "Keep-Alive":
+		return core.Pick(r, []string{"timeout=5", "timeout=5, max=100"})
+	case "Proxy-Connection":
+		return core.Pick(r, []string{"keep-alive", "keep-alive", "Keep-Alive", "close", "keep-alive, X-Nom-" + id, ""})
+	}
+	return "hop-" + id
+}
+
+// GenConnShape draws the hop-by-hop part of a request along two crossed dimensions and returns the field lines to add:
+// (a) which fields of the fixed hop-by-hop list are present (each with its own probability, one or two lines, respelt
+// names; at least one in 4 of 5 draws), and (b) the shape of the Connection field: absent; exactly one line with exactly
+// one option (keep-alive, close, their respellings, upgrade, TE, a nominated custom name that is present, a name of the
+// fixed list); one option next to empty list elements; one line with several options; several lines; an empty value.
+// What most clients send - a lone "Connection: keep-alive" / "close" - is the most likely shape.
+func GenConnShape(r *core.Rand, o ConnShapeOpts) []rig.Field {
+	var lines []rig.Field
+	// (a) the fixed hop-by-hop fields
+	var pool []string
+	for _, n := range FixedHopByHop {
+		if o.NoFraming && (n == "Transfer-Encoding" || n == "Trailer") {
+			continue
+		}
+		pool = append(pool, n)
+	}
+	chosen := map[string]bool{}
+	for _, n := range pool {
+		if r.Chance(22) {
+			chosen[n] = true
+		}
+	}
+	if len(chosen) == 0 && r.Chance(80) {
+		if r.Chance(40) {
+			chosen["Proxy-Authorization"] = true
+		} else {
+			chosen[core.Pick(r, pool)] = true
+		}
+	}
+	for _, n := range pool {
+		if !chosen[n] {
+			continue
+		}
+		nl := 1
+		if n != "Transfer-Encoding" && r.Chance(15) {
+			nl = 2
+		}
+		for i := 0; i < nl; i++ {
+			lines = append(lines, rig.Field{Name: respell(r, n), Value: hopFieldValue(r, n, o.ID, i)})
+		}
+	}
+	// (b) the Connection field
+	custom := "X-Nom-" + o.ID
+	usedCustom := false
+	ka := func() string {
+		return core.Pick(r, []string{"keep-alive", "keep-alive", "Keep-Alive", "KEEP-ALIVE", "kEeP-aLiVe"})
+	}
+	cl := func() string {
+		if !o.AllowClose {
+			return ka()
+		}
+		return core.Pick(r, []string{"close", "close", "Close", "CLOSE"})
+	}
+	other := func() string {
+		switch r.Intn(6) {
+		case 0:
+			return core.Pick(r, UpgradeTokenSpellings)
+		case 1:
+			return core.Pick(r, []string{"TE", "te"})
+		case 2:
+			return respell(r, core.Pick(r, FixedHopByHop))
+		case 3:
+			return respell(r, core.Pick(r, plainNames))
+		default:
+			usedCustom = true
+			return respell(r, custom)
+		}
+	}
+	anyOpt := func() string {
+		switch r.Intn(4) {
+		case 0:
+			return ka()
+		case 1:
+			return cl()
+		default:
+			return other()
+		}
+	}
+	var vals []string // one element per Connection line
+	switch shape := r.Intn(14); {
+	case shape == 0: // absent
+	case shape <= 3: // lone keep-alive / close as most clients write it
+		if shape == 3 && o.AllowClose {
+			vals = []string{"close"}
+		} else {
+			vals = []string{"keep-alive"}
+		}
+	case shape == 4: // respelt
+		if r.Bool() {
+			vals = []string{core.Pick(r, []string{"Keep-Alive", "KEEP-ALIVE", "kEeP-aLiVe", "Keep-alive"})}
+		} else {
+			vals = []string{cl()}
+		}
+	case shape <= 6: // another lone option
+		vals = []string{other()}
+	case shape == 7: // one option next to empty list elements
+		opt := core.Pick(r, []string{ka(), cl(), other()})
+		vals = []string{core.Pick(r, []string{opt + ",", "," + opt, opt + ", ,", ", " + opt})}
+	case shape <= 9: // one line, several options
+		k := r.Range(2, 4)
+		var ts []string
+		for i := 0; i < k; i++ {
+			ts = append(ts, anyOpt())
+		}
+		vals = []string{strings.Join(ts, core.Pick(r, []string{",", ", ", " , ", ",\t"}))}
+	case shape <= 12: // several lines
+		nl := r.Range(2, 3)
+		for i := 0; i < nl; i++ {
+			v := anyOpt()
+			if r.Chance(25) {
+				v += ", " + anyOpt()
+			}
+			vals = append(vals, v)
+		}
+	default: // empty value
+		vals = []string{core.Pick(r, []string{"", "", ",", ", ,"})}
+	}
+	if o.NeedKeepAlive {
+		hasKA := false
+		for _, v := range vals {
+			for _, t := range strings.Split(v, ",") {
+				hasKA = hasKA || strings.EqualFold(strings.TrimSpace(t), "keep-alive")
+			}
+		}
+		switch {
+		case hasKA:
+		case len(vals) == 0 || strings.Trim(vals[0], ", ") == "":
+			vals = []string{"keep-alive"}
+		default:
+			vals[len(vals)-1] += ", " + ka()
+		}
+	}
+	for _, v := range vals {
+		lines = append(lines, rig.Field{Name: respell(r, "Connection"), Value: v})
+	}
+	if usedCustom && r.Chance(85) {
+		lines = append(lines, rig.Field{Name: respell(r, custom), Value: "nominated-" + o.ID})
+	}
+	return lines
+}
+
+// ConnShapeOf classifies the Connection field of a request as sent (for the input distribution).
+func ConnShapeOf(fields []rig.Field) string {
+	var vals []string
+	for _, f := range fields {
+		if strings.EqualFold(f.Name, "Connection") {
+			vals = append(vals, f.Value)
+		}
+	}
+	switch {
+	case len(vals) == 0:
+		return "absent"
+	case len(vals) > 1:
+		return "several-lines"
+	}
+	var opts []string
+	for _, t := range strings.Split(vals[0], ",") {
+		if t = strings.TrimSpace(t); t != "" {
+			opts = append(opts, t)
+		}
+	}
+	switch {
+	case len(opts) == 0:
+		return "empty-value"
+	case len(opts) > 1:
+		return "one-line-several-options"
+	case strings.Contains(vals[0], ","):
+		return "one-option-and-empty-elements"
+	}
+	o := opts[0]
+	switch {
+	case o == "keep-alive" || o == "close":
+		return "lone-" + o
+	case strings.EqualFold(o, "keep-alive") || strings.EqualFold(o, "close"):
+		return "lone-" + strings.ToLower(o) + "-respelt"
+	case strings.EqualFold(o, "upgrade"):
+		return "lone-upgrade"
+	case strings.EqualFold(o, "te"):
+		return "lone-te"
+	}
+	for _, n := range FixedHopByHop {
+		if strings.EqualFold(o, n) {
+			return "lone-fixed-hop-name"
+		}
+	}
+	return "lone-custom-name"
+}
+
+// HopFieldsPresent: the fields of the fixed hop-by-hop list a request carries (canonical names, list order).
+func HopFieldsPresent(fields []rig.Field) []string {
+	var out []string
+	for _, n := range FixedHopByHop {
+		for _, f := range fields {
+			if strings.EqualFold(f.Name, n) {
+				out = append(out, n)
+				break
+			}
+		}
+	}
+	return out
+}
+
+// ConnShapeLabels: the (Connection shape x hop-by-hop field present) cells a request falls into.
+func ConnShapeLabels(fields []rig.Field) []string {
+	s := ConnShapeOf(fields)
+	hs := HopFieldsPresent(fields)
+	if len(hs) == 0 {
+		return []string{"connx/" + s + "/no-hop-field"}
+	}
+	var out []string
+	for _, h := range hs {
+		out = append(out, "connx/"+s+"/"+h)
 	}
 	return out
 }
